@@ -19,6 +19,9 @@ POOL = [
     ("c1i", "1i", "complex", ""), ("c10", "(1+0i)", "complex", ""), ("c25", "(2.5-1i)", "complex", ""),
     ("s0", '""', "str", ""), ("sa", '"a"', "str", ""), ("sabc", '"abc"', "str", ""), ("shel", '"héllo"', "str", ""),
     ("se", '"é"', "str", ""), ("sz", '"0"', "str", ""), ("s12", '"12"', "str", ""), ("ssp", '" x\\n"', "str", ""), ("sre", '"a(b"', "str", ""),
+    # 400-byte strings in which every byte offset >= 1 falls inside a 2-byte character in one of the two (byte-offset
+    # truncation / slicing of text in messages and formatting)
+    ("sutfA", '("é" $* 200)', "str", ""), ("sutfB", '("x" $ ("é" $* 200))', "str", ""),
     ("y0", "B[]", "bytes", ""), ("y1", "B[0]", "bytes", ""), ("y3", "B[255,0,128]", "bytes", ""),
     ("l0", "[]", "list", ""), ("l1", "[1]", "list", ""), ("l3", "[1,2,3]", "list", ""), ("lnest", "[[1,2],[3]]", "list", ""),
     ("lmix", '[1,"a",null]', "list", ""), ("l200", "([0] ** 200)", "list", ""), ("lpairs", '[["a", 1], ["b", 2]]', "list", ""),
@@ -55,5 +58,5 @@ EXCLUDED = {
 
 # Reduced pool for the quick tier: one or two representatives per kind (all pairs are swept)
 QUICK = ["i0", "i1", "im1", "i2_63m", "im2_63", "i1e30", "b7", "q12", "f05", "fnan", "c1i",
-         "s0", "sabc", "y3", "l0", "l3", "lnest", "v2", "d1", "ddef", "dfn", "wadv",
+         "s0", "sabc", "sutfB", "y3", "l0", "l3", "lnest", "v2", "d1", "ddef", "dfn", "wadv",
          "r13", "r51", "siota", "scyc", "fid", "fzero", "feven", "tint", "ifoo", "nul"]
